@@ -513,6 +513,19 @@ theorem formatBibliography_ok {es : List PEntry} {items : Str → Option Item} {
     · have hf : (fun x : Str × PEntry => x.1) = Prod.fst := rfl
       rw [h2, hf, List.map_fst_zip (by omega)]
 
+/-- the database `format_bibliography` receives is well formed when its entries are -/
+theorem foldl_setItem_wf (es : List PEntry) (h : ∀ e ∈ es, EntryWF e.toEntry) :
+    ∀ (d : CIDict Entry), DbWF ⟨d, none, CISet.empty⟩ →
+      DbWF ⟨es.foldl (fun d e => d.setItem e.key e.toEntry) d, none, CISet.empty⟩ := by
+  induction es with
+  | nil => intro d hd; exact hd
+  | cons e es ih =>
+    intro d hd
+    exact ih (fun x hx => h x (List.mem_cons_of_mem _ hx)) _ (DbWF.setEntry hd (h e (by simp)) e.key none)
+
+theorem mkDb_wf (es : List PEntry) (h : ∀ e ∈ es, EntryWF e.toEntry) : DbWF (mkDb es) :=
+  foldl_setItem_wf es h CIDict.empty (DbWF.init none)
+
 /-! ### labels -/
 
 theorem natToStr_eq (n : Nat) : natToStr n = Nat.toDigits 10 n := by simp [natToStr]
@@ -1690,6 +1703,156 @@ theorem toStr_flatLatex (d : Nat) (v : Str) : Flat.toStr (flatLatex d v) = strip
 theorem toStr_fromLatex {v : Str} {r : RT} (h : fromLatex v = .ok r) : toStr r = stripBraces v := by
   rw [← toStr_sem r [], sem_fromLatex h, toStr_flatLatex]
 
+/-! ### `dashify`: splitting never loses anything but (unprotected) separators -/
+
+section splitF
+variable (f : Str → List Str) (q : Atom × List Markup → Bool)
+
+theorem splitFL_filter (k : Kind) (ctx : List Markup) (ps : List RT)
+    (ih : ∀ p ∈ ps, (((splitF f p).map (sem (ctx ++ k.markup))).flatten).filter q
+        = (sem (ctx ++ k.markup) p).filter q) :
+    ∀ tail, (((splitFL f k ps tail).map (sem ctx)).flatten).filter q
+      = (semL (ctx ++ k.markup) tail).filter q ++ (semL (ctx ++ k.markup) ps).filter q := by
+  induction ps with
+  | nil =>
+    intro tail
+    simp only [splitFL]
+    split
+    · simp [sem_mk, sem, semL]
+    · rename_i ht
+      have : tail = [] := by simpa using ht
+      subst this; simp [semL]
+  | cons part ps ih2 =>
+    intro tail
+    have ihp := ih part (by simp)
+    have ih2' := ih2 (fun p hp => ih p (List.mem_cons_of_mem _ hp))
+    simp only [splitFL]
+    cases hrev : (splitF f part).reverse with
+    | nil =>
+      have hnil : splitF f part = [] := by simpa using hrev
+      rw [hnil] at ihp
+      simp only [List.map_nil, List.flatten_nil, List.filter_nil] at ihp
+      simp only [ih2' tail, semL, List.filter_append, ← ihp, List.nil_append]
+    | cons last revInit =>
+      have hsplit : splitF f part = revInit.reverse ++ [last] := by
+        have := congrArg List.reverse hrev; simpa using this
+      rw [hsplit] at ihp
+      obtain ⟨h1, h2⟩ := splitItems_sem ctx k true revInit.reverse tail
+      simp only [List.map_append, List.flatten_append, List.filter_append, h1, keepF_true, ih2' _, h2]
+      simp only [List.map_append, List.flatten_append, List.filter_append, List.map_cons, List.map_nil,
+        List.flatten_cons, List.flatten_nil, List.append_nil] at ihp
+      cases hitems : revInit.reverse with
+      | nil =>
+        rw [hitems] at ihp
+        simp only [List.map_nil, List.flatten_nil, List.filter_nil, List.nil_append] at ihp
+        simp only [if_true, semL_append, semL, List.filter_append, List.append_nil, List.flatten_nil,
+          List.filter_nil, List.nil_append, ← ihp, List.append_assoc]
+      | cons i is =>
+        rw [hitems] at ihp
+        simp only [List.map_cons, List.flatten_cons, List.filter_append] at ihp
+        simp only [reduceCtorEq, if_false, semL, List.filter_append, List.append_nil, List.flatten_cons,
+          List.nil_append, ← ihp, List.append_assoc]
+
+theorem markup_not_prot {k : Kind} (hk : k ≠ .prot) : Flat.isProt k.markup = false := by
+  cases k <;> simp_all [Kind.markup, Flat.isProt]
+
+theorem splitF_filter
+    (hleaf : ∀ ctx, Flat.isProt ctx = false → ∀ s,
+      (((f s).map fun x => sem ctx (.str x)).flatten).filter q = (sem ctx (.str s)).filter q) (t : RT) :
+    ∀ ctx, Flat.isProt ctx = false → (((splitF f t).map (sem ctx)).flatten).filter q = (sem ctx t).filter q := by
+  induction t using RT.induct with
+  | hstr s =>
+    intro ctx hc
+    have := hleaf ctx hc s
+    simpa [splitF, List.map_map, Function.comp_def] using this
+  | hsym n => intro ctx _; simp [splitF]
+  | hnode k ps ih =>
+    intro ctx hc
+    by_cases hk : k = .prot
+    · subst hk; simp [splitF]
+    · have hc' : Flat.isProt (ctx ++ k.markup) = false := by rw [isProt_append, hc, markup_not_prot hk]; rfl
+      have hsf : splitF f (.node k ps) = splitFL f k ps [.str []] := by
+        cases k <;> first | rfl | exact absurd rfl hk
+      rw [hsf, splitFL_filter f q k ctx ps (fun p hp => ih p hp _ hc')]
+      simp [sem, semL]
+
+end splitF
+
+theorem filter_joinWith {α : Type} (q : α → Bool) (sep : List α) (hsep : sep.filter q = []) :
+    ∀ L : List (List α), (joinWith sep L).filter q = L.flatten.filter q := by
+  intro L
+  induction L with
+  | nil => rfl
+  | cons x L ih =>
+    cases L with
+    | nil => simp [joinWith]
+    | cons y r =>
+      simp only [joinWith, List.filter_append, hsep, ih, List.flatten_cons, List.append_nil]
+
+theorem flatten_splitDashes : ∀ (s cur : Str) (b : Bool),
+    (splitDashes s cur b).flatten = cur.reverse ++ s.filter (fun c => c != '-') := by
+  intro s
+  induction s with
+  | nil => intro cur b; simp [splitDashes]
+  | cons c r ih =>
+    intro cur b
+    simp only [splitDashes]
+    split
+    · rename_i hc
+      subst hc
+      split
+      · rw [ih]; simp
+      · simp [ih]
+    · rename_i hc
+      rw [ih]
+      simp [hc]
+
+theorem dashify_filter (q : Atom × List Markup → Bool)
+    (hndash : q (.sym "ndash".toList, []) = false)
+    (hleaf : ∀ ctx, Flat.isProt ctx = false → ∀ s,
+      (((splitDashes s [] false).map fun x => sem ctx (.str x)).flatten).filter q = (sem ctx (.str s)).filter q)
+    (t : RT) : (sem [] (dashify t)).filter q = (sem [] t).filter q := by
+  unfold dashify
+  rw [sem_join, filter_joinWith q _ (by simp [sem_mk, sem, semL, Kind.markup]; simpa using hndash)]
+  exact splitF_filter _ q hleaf t [] rfl
+
+theorem protAtoms_dashify (t : RT) : protAtoms (sem [] (dashify t)) = protAtoms (sem [] t) := by
+  apply dashify_filter _ (by rfl)
+  intro ctx hc s
+  have h1 : ∀ l : Str, (sem ctx (.str l)).filter (fun x => Flat.isProt x.2) = [] := by
+    intro l; simp [sem, List.filter_eq_nil_iff, hc]
+  rw [h1, List.filter_eq_nil_iff]
+  intro x hx
+  simp only [List.mem_flatten, List.mem_map] at hx
+  obtain ⟨l, ⟨y, -, rfl⟩, hxl⟩ := hx
+  have := List.filter_eq_nil_iff.1 (h1 y) x hxl
+  exact this
+
+/-- `dashify` changes nothing but dashes -/
+theorem nonDash_dashify (t : RT) : nonDash (sem [] (dashify t)) = nonDash (sem [] t) := by
+  apply dashify_filter _ (by decide)
+  intro ctx hc s
+  have hmap : ∀ l : Str, (sem ctx (.str l)).filter (fun x => x.1 != .ch '-' && x.1 != .sym "ndash".toList)
+      = sem ctx (.str (l.filter fun c => c != '-')) := by
+    intro l
+    induction l with
+    | nil => rfl
+    | cons c l ih =>
+      simp only [sem, List.map_cons, List.filter_cons] at ih ⊢
+      by_cases hc : c = '-'
+      · subst hc; simpa using ih
+      · have h1 : (Atom.ch c != Atom.ch '-' && Atom.ch c != Atom.sym "ndash".toList) = true := by simp [hc]
+        have h2 : (c != '-') = true := by simp [hc]
+        rw [h1, h2]; simp only [if_true, List.map_cons]; rw [ih]
+  have hflat : ((splitDashes s [] false).map fun x => sem ctx (.str x)).flatten
+      = sem ctx (.str (splitDashes s [] false).flatten) := by
+    generalize splitDashes s [] false = L
+    induction L with
+    | nil => rfl
+    | cons x L ih => rw [List.map_cons, List.flatten_cons, ih]; simp [sem]
+  rw [hflat, hmap, hmap, flatten_splitDashes]
+  simp
+
 /-! ### field coverage -/
 
 theorem toStrL_eq_flatten (ps : List RT) : toStrL ps = (ps.map toStr).flatten := by
@@ -2047,12 +2210,13 @@ theorem fieldValue_text {ctx : Ctx} {o : Occ} {val : RT} (h : fieldValue ctx o =
     ∃ v, ctx.entry.findField o.name ctx.db = some v ∧
       (o.raw = true → o.fn = .none → toStr val = v) ∧
       (o.raw = false → o.fn = .none → toStr val = stripBraces v) ∧
-      (o.raw = false → (o.fn = .lower ∨ o.fn = .capitalize) → lower (toStr val) = lower (stripBraces v)) := by
+      (o.raw = false → (o.fn = .lower ∨ o.fn = .capitalize) → lower (toStr val) = lower (stripBraces v)) ∧
+      (o.raw = false → o.fn = .dashify → nonDash (sem [] val) = nonDash (flatLatex 0 v)) := by
   unfold fieldValue at h
   split at h
   · cases h
   · rename_i v hv
-    refine ⟨v, hv, ?_, ?_, ?_⟩
+    refine ⟨v, hv, ?_, ?_, ?_, ?_⟩
     · intro hr hf
       rw [if_pos hr] at h
       simp only [Option.some.injEq] at h; subst h
@@ -2073,6 +2237,13 @@ theorem fieldValue_text {ctx : Ctx} {o : Occ} {val : RT} (h : fieldValue ctx o =
         rcases hf with hf | hf
         · rw [hf]; simp only [applyFn]; rw [lower_toStr_lowerT, toStr_fromLatex hx]
         · rw [hf]; simp only [applyFn]; rw [lower_toStr_capitalize, toStr_fromLatex hx]
+    · intro hr hf
+      rw [if_neg (by simp [hr])] at h
+      split at h
+      · cases h
+      · rename_i x hx
+        simp only [Option.some.injEq] at h; subst h
+        rw [hf]; simp only [applyFn]; rw [nonDash_dashify, sem_fromLatex hx]
 
 /-- the last character of the plain text of a terminated, non-empty rich text -/
 theorem toStr_of_terminated {r : RT} (h : Flat.terminated Gen.terminators (sem [] r) = true) :
